@@ -40,6 +40,9 @@ CTX = {
     "nanfill": lambda: [S.observation_nan_policy("fill")],
     "nochol_root": lambda: [S.fast_computations(covar_root_decomposition=False)],
     "vjit": lambda: [S.variational_cholesky_jitter(double_value=1e-3)],
+    # deliberately coarse approximations (legitimate for the call that asks for them; they must not outlive it)
+    "lowrank": lambda: [S.fast_pred_var(), S.max_root_decomposition_size(2)],
+    "loosecg": lambda: [S.max_cholesky_size(0), S.eval_cg_tolerance(0.5), S.max_preconditioner_size(0)],
 }
 LOOSE = {"cg", "fpv", "fps"}
 
@@ -52,10 +55,14 @@ def alphabet(fam, tier):
         ctxs.append("fps")
     if fam in ("exact", "multitask"):
         ctxs += ["nanmask", "nanfill"]
+    if fam == "exact":
+        ctxs += ["lowrank", "loosecg"]
     if models.is_var(fam):
         ctxs = ["default", "nolazy", "attach", "skip", "cg", "nochol_root", "vjit"]
     ops = [["predict", c, "m3"] for c in ctxs]
     ops += [["predict", "default", "m1"], ["predict", "default", "b2"], ["predict", "fpv", "m1"]]
+    if fam == "kiss":
+        ops += [["predict", "fpv", "b2"]]
     ops += [["train"], ["eval"], ["step"], ["load", 1], ["load", 0], ["load_partial", 2], ["load_child", 2]]
     if not models.is_var(fam):
         ops += [["set_data", 1], ["set_data", 0], ["set_inputs", 2], ["set_targets", 2], ["fantasy"], ["prior"]]
@@ -240,7 +247,13 @@ class World:
         return None
 
 
+COARSE = {"lowrank", "loosecg"}   # deliberately coarse approximations: the call that asks for one is not judged (its value is not defined
+#                                     by the property); it is in the alphabet for what it may leave behind for LATER calls
+
+
 def compare(w, op, got, fails, feats, hist=()):
+    if op[1] in COARSE:
+        return "coarse-not-judged"
     try:
         ref = w.reference()
     except AssertionError as e:
@@ -297,6 +310,16 @@ def run_history(cell, seed):
         elif o[0] in ("predict", "backward", "fantasy", "kl", "prior") and pending:
             stale_child = True
     feats["child_load_then_eval"] = stale_child
+    # a coarse prediction earlier in the same cache epoch (no train / eval-from-train / load / set_train_data in between)?
+    coarse_epoch, seen_coarse, training2 = False, False, False
+    for o in hist:
+        if o[0] == "train" or o[0] in ("load", "load_partial", "set_data", "set_inputs", "set_targets") or (o[0] == "eval" and training2):
+            seen_coarse = False
+            training2 = (o[0] == "train") or (training2 and o[0] != "eval")
+        elif o[0] == "predict" and o[1] in COARSE:
+            seen_coarse = True
+    feats["coarse_earlier_in_epoch"] = seen_coarse and hist[-1][0] == "predict" and hist[-1][1] not in COARSE
+    feats["kiss_batched_fpv_first"] = any(o[0] == "predict" and o[1] == "fpv" and len(o) > 2 and o[2] == "b2" for o in hist)
     notes = {}
     sig = "ok"
     for i, op in enumerate(hist):
